@@ -263,11 +263,41 @@ def run(ctx):
                 calls.append(tuple(int(c) for c in coords))
                 return _orig(self, chunk, key, coords)
             precomputed_io.PrecomputedIO.write_chunk = spy
+            via_cli = rng.random() < 0.35
+            desc["entry_point"] = "volume-to-precomputed command line" if via_cli else "volume_file_to_precomputed()"
+            ctx.hist("entry_point", "cli" if via_cli else "api")
             try:
                 with np.errstate(all="ignore"):
-                    rc = volume_reader.volume_file_to_precomputed(
-                        path, dest, ignore_scaling=ignore, input_min=input_min, input_max=input_max,
-                        load_full_volume=not mmap, options=opts)
+                    if via_cli:
+                        # the command-line glue (argparse types, defaults, dest names, option forwarding) in the loop
+                        from neuroglancer_scripts.scripts import volume_to_precomputed as _cli
+                        groups = []
+                        if ignore:
+                            groups.append(["--ignore-scaling"])
+                        if input_max is not None:
+                            groups.append(["--input-max=" + repr(input_max)] if rng.random() < 0.5
+                                          else ["--input-max", repr(input_max)])
+                        if input_min is not None:
+                            groups.append(["--input-min", repr(input_min)])
+                        if mmap:
+                            groups.append(["--mmap"])
+                        elif rng.random() < 0.3:
+                            groups.append(["--load-full-volume"])
+                        if opts["flat"]:
+                            groups.append(["--flat"])
+                        if not opts["gzip"]:
+                            groups.append(["--no-gzip"])
+                        rng.shuffle(groups)
+                        argv = ["volume-to-precomputed", path, dest]
+                        argv_tail = [t for g in groups for t in g]
+                        try:
+                            rc = _cli.main(argv[:3] + argv_tail)
+                        except SystemExit as exc:
+                            rc = exc.code
+                    else:
+                        rc = volume_reader.volume_file_to_precomputed(
+                            path, dest, ignore_scaling=ignore, input_min=input_min, input_max=input_max,
+                            load_full_volume=not mmap, options=opts)
             except Exception as exc:  # noqa
                 ctx.oracle_fail(f"volume conversion raised {type(exc).__name__}: {exc}", desc)
                 continue
